@@ -18,9 +18,13 @@ Vocabulary
 * `RecOK … o r`    : provenance of the analytical record of output `o` (seed, back-propagation).
 The theorems about values hold for ANY scalar type with the operations of the model (in particular
 for `Cx Rat`, the complex numbers the driver runs); only the algebra of the difference quotient
-needs a field.
+needs a field, and the `O(dx)` bound for general smooth modules (`fd_numerical_smooth…`, Taylor with
+Lagrange remainder, helper lemmas `Lemmas/FDSmooth.lean`) is stated over `ℝ`.
 -/
 import PymotoVerif.Lemmas.FD
+import PymotoVerif.Lemmas.FDSmooth
+import Mathlib.Analysis.Calculus.Deriv.Pow
+import Mathlib.Analysis.SpecialFunctions.ExpDeriv
 import Mathlib.Tactic.Ring
 import Mathlib.Tactic.FieldSimp
 import Mathlib.Algebra.Field.Basic
@@ -264,20 +268,139 @@ theorem fd_detects_wrong_sensitivity (abs : α → α) (o : OutSig α) (r : OutR
   have := add_left_cancel heq
   exact this
 
-/- NOT PROVED — `fd_numerical_smooth_partial`: for a general smooth module the numerical value is within
-   `O(dx)` of the directional derivative (Taylor remainder); only the polynomial case (degree ≤ 2 exactly,
-   `fd_numerical_quadratic`) is formalised.  The oracle of `harness/props/c19.py` checks the bound
-   `|fd − true| ≤ dx · Σ_{k≥2} |c_k|` on polynomial paths of degree ≤ 4 on every run. -/
-/-- the part of the `O(dx)` claim that is formalised: for expansions of degree ≤ 2 the error is
-    linear in the step with a step-independent coefficient -/
-theorem fd_numerical_smooth_partial (abs : α → α) (o : OutSig α) (r : OutRec α) (σr : Store α) (h : α)
-    (hh : h ≠ 0) (D Q : Nat → α)
-    (hexp : ∀ m, m < o.sig.ents.length → σr.st (o.sig.ents.getD m 0) = r.f0 m + h * D m + h * h * Q m) :
-    ∃ c, c = ∑ m ∈ range o.sig.ents.length, Q m * r.w m ∧
-      fdVal (realOps abs) false h o r σr - ∑ m ∈ range o.sig.ents.length, D m * r.w m = h * c :=
-  ⟨_, rfl, by rw [fd_numerical_quadratic abs o r σr h hh D Q hexp]; ring⟩
-
 end field
+
+/-! ## the numerical value for a general smooth module (`ℝ`, Taylor with Lagrange remainder) -/
+
+section smooth
+
+/-- **`O(dx)` at full strength.**  Real data, step `h > 0`.  `F s m` is entry `m` of the output when the input entry is
+    perturbed by `s` (`F 0 = f0`, the reference response; `F h` = the perturbed response the procedure evaluated), so
+    `φ s = Σ_m F s m · w m` is the seeded response along the perturbation.  If `φ` has derivative `φ'` on `[0, h]`, `φ'` is
+    continuous there and has derivative `φ''` inside with `|φ''| ≤ M`, then the reported numerical value differs from
+    the true directional derivative `φ' 0` by at most `M·h/2`. -/
+theorem fd_numerical_smooth (abs : ℝ → ℝ) (o : OutSig ℝ) (r : OutRec ℝ) (σr : Store ℝ) (h M : ℝ) (hh : 0 < h)
+    (F : ℝ → Nat → ℝ) (φ' φ'' : ℝ → ℝ)
+    (hF0 : ∀ m, m < o.sig.ents.length → F 0 m = r.f0 m)
+    (hFh : ∀ m, m < o.sig.ents.length → F h m = σr.st (o.sig.ents.getD m 0))
+    (hd1 : ∀ s ∈ Set.Icc 0 h, HasDerivWithinAt (fun s => ∑ m ∈ range o.sig.ents.length, F s m * r.w m) (φ' s)
+      (Set.Icc 0 h) s)
+    (hc : ContinuousOn φ' (Set.Icc 0 h))
+    (hd2 : ∀ s ∈ Set.Ioo 0 h, HasDerivAt φ' (φ'' s) s)
+    (hM : ∀ s ∈ Set.Ioo 0 h, |φ'' s| ≤ M) :
+    |fdVal (realOps abs) false h o r σr - φ' 0| ≤ M * h / 2 := by
+  rw [fdVal_real_eq (realOps abs) rfl]
+  have e0 : ∑ m ∈ range o.sig.ents.length, r.f0 m * r.w m = ∑ m ∈ range o.sig.ents.length, F 0 m * r.w m :=
+    Finset.sum_congr rfl fun m hm => by rw [hF0 m (Finset.mem_range.mp hm)]
+  have eh : ∑ m ∈ range o.sig.ents.length, σr.st (o.sig.ents.getD m 0) * r.w m
+      = ∑ m ∈ range o.sig.ents.length, F h m * r.w m :=
+    Finset.sum_congr rfl fun m hm => by rw [hFh m (Finset.mem_range.mp hm)]
+  rw [e0, eh]
+  exact fwd_diff_error (φ := fun s => ∑ m ∈ range o.sig.ents.length, F s m * r.w m) hh hd1 hc hd2 hM
+
+/-- the same for a negative step (`h` is the step actually applied, i.e. the divisor `den` of the model, `dx` or
+    `dx·|x0|` with `relative_dx`; negative when `dx < 0`): error `M·|h|/2`, derivatives on `[h, 0]` -/
+theorem fd_numerical_smooth_neg (abs : ℝ → ℝ) (o : OutSig ℝ) (r : OutRec ℝ) (σr : Store ℝ) (h M : ℝ) (hh : h < 0)
+    (F : ℝ → Nat → ℝ) (φ' φ'' : ℝ → ℝ)
+    (hF0 : ∀ m, m < o.sig.ents.length → F 0 m = r.f0 m)
+    (hFh : ∀ m, m < o.sig.ents.length → F h m = σr.st (o.sig.ents.getD m 0))
+    (hd1 : ∀ s ∈ Set.Icc h 0, HasDerivWithinAt (fun s => ∑ m ∈ range o.sig.ents.length, F s m * r.w m) (φ' s)
+      (Set.Icc h 0) s)
+    (hc : ContinuousOn φ' (Set.Icc h 0))
+    (hd2 : ∀ s ∈ Set.Ioo h 0, HasDerivAt φ' (φ'' s) s)
+    (hM : ∀ s ∈ Set.Ioo h 0, |φ'' s| ≤ M) :
+    |fdVal (realOps abs) false h o r σr - φ' 0| ≤ M * |h| / 2 := by
+  rw [fdVal_real_eq (realOps abs) rfl]
+  have e0 : ∑ m ∈ range o.sig.ents.length, r.f0 m * r.w m = ∑ m ∈ range o.sig.ents.length, F 0 m * r.w m :=
+    Finset.sum_congr rfl fun m hm => by rw [hF0 m (Finset.mem_range.mp hm)]
+  have eh : ∑ m ∈ range o.sig.ents.length, σr.st (o.sig.ents.getD m 0) * r.w m
+      = ∑ m ∈ range o.sig.ents.length, F h m * r.w m :=
+    Finset.sum_congr rfl fun m hm => by rw [hFh m (Finset.mem_range.mp hm)]
+  rw [e0, eh]
+  exact fwd_diff_error_neg (φ := fun s => ∑ m ∈ range o.sig.ents.length, F s m * r.w m) hh hd1 hc hd2 hM
+
+/-- `C²` formulation: the seeded response is twice continuously differentiable on an open set containing `[0, h]`
+    and `|φ''| ≤ M` on `(0, h)`; the true derivative is `deriv φ 0`. -/
+theorem fd_numerical_smooth_contDiffOn (abs : ℝ → ℝ) (o : OutSig ℝ) (r : OutRec ℝ) (σr : Store ℝ) (h M : ℝ)
+    (hh : 0 < h) (F : ℝ → Nat → ℝ) (U : Set ℝ) (hU : IsOpen U) (hsub : Set.Icc 0 h ⊆ U)
+    (hF0 : ∀ m, m < o.sig.ents.length → F 0 m = r.f0 m)
+    (hFh : ∀ m, m < o.sig.ents.length → F h m = σr.st (o.sig.ents.getD m 0))
+    (hφ : ContDiffOn ℝ 2 (fun s => ∑ m ∈ range o.sig.ents.length, F s m * r.w m) U)
+    (hM : ∀ s ∈ Set.Ioo 0 h,
+      |deriv (deriv fun s => ∑ m ∈ range o.sig.ents.length, F s m * r.w m) s| ≤ M) :
+    |fdVal (realOps abs) false h o r σr - deriv (fun s => ∑ m ∈ range o.sig.ents.length, F s m * r.w m) 0|
+      ≤ M * h / 2 := by
+  rw [fdVal_real_eq (realOps abs) rfl]
+  have e0 : ∑ m ∈ range o.sig.ents.length, r.f0 m * r.w m = ∑ m ∈ range o.sig.ents.length, F 0 m * r.w m :=
+    Finset.sum_congr rfl fun m hm => by rw [hF0 m (Finset.mem_range.mp hm)]
+  have eh : ∑ m ∈ range o.sig.ents.length, σr.st (o.sig.ents.getD m 0) * r.w m
+      = ∑ m ∈ range o.sig.ents.length, F h m * r.w m :=
+    Finset.sum_congr rfl fun m hm => by rw [hFh m (Finset.mem_range.mp hm)]
+  rw [e0, eh]
+  exact fwd_diff_error_contDiffOn (φ := fun s => ∑ m ∈ range o.sig.ents.length, F s m * r.w m) hh hU hsub hφ hM
+
+/-- entrywise formulation (the shape of `fd_numerical_quadratic`): every output entry is twice differentiable along the
+    perturbation with `|∂²F_m/∂s²| ≤ K m`; then the numerical value is within `h/2 · Σ_m K m · |w m|` of the true
+    directional derivative `Σ_m D m · w m`, `D m = ∂F_m/∂s (0)`. -/
+theorem fd_numerical_smooth_entrywise (abs : ℝ → ℝ) (o : OutSig ℝ) (r : OutRec ℝ) (σr : Store ℝ) (h : ℝ) (hh : 0 < h)
+    (F F' F'' : ℝ → Nat → ℝ) (K : Nat → ℝ)
+    (hF0 : ∀ m, m < o.sig.ents.length → F 0 m = r.f0 m)
+    (hFh : ∀ m, m < o.sig.ents.length → F h m = σr.st (o.sig.ents.getD m 0))
+    (hd1 : ∀ m, m < o.sig.ents.length → ∀ s ∈ Set.Icc 0 h,
+      HasDerivWithinAt (fun s => F s m) (F' s m) (Set.Icc 0 h) s)
+    (hc : ∀ m, m < o.sig.ents.length → ContinuousOn (fun s => F' s m) (Set.Icc 0 h))
+    (hd2 : ∀ m, m < o.sig.ents.length → ∀ s ∈ Set.Ioo 0 h, HasDerivAt (fun s => F' s m) (F'' s m) s)
+    (hK : ∀ m, m < o.sig.ents.length → ∀ s ∈ Set.Ioo 0 h, |F'' s m| ≤ K m) :
+    |fdVal (realOps abs) false h o r σr - ∑ m ∈ range o.sig.ents.length, F' 0 m * r.w m|
+      ≤ (∑ m ∈ range o.sig.ents.length, K m * |r.w m|) * h / 2 :=
+  fd_numerical_smooth abs o r σr h _ hh F (seeded o.sig.ents.length r.w F') (seeded o.sig.ents.length r.w F'') hF0 hFh
+    (fun s hs => seeded_hasDerivWithinAt _ _ F F' _ s fun m hm => hd1 m hm s hs)
+    (seeded_continuousOn _ _ F' _ hc)
+    (fun s hs => seeded_hasDerivAt _ _ F' F'' s fun m hm => hd2 m hm s hs)
+    (fun s hs => seeded_abs_le _ _ F'' K s fun m hm => hK m hm s hs)
+
+/-- **a correct sensitivity is accepted** (smooth module): if the analytical value is the true directional derivative,
+    the reported pair differs by at most `M·h/2`. -/
+theorem fd_accepts_right_sensitivity_smooth (abs : ℝ → ℝ) (o : OutSig ℝ) (r : OutRec ℝ) (σr : Store ℝ) (h M : ℝ)
+    (hh : 0 < h) (F : ℝ → Nat → ℝ) (φ' φ'' : ℝ → ℝ) (an : ℝ)
+    (hF0 : ∀ m, m < o.sig.ents.length → F 0 m = r.f0 m)
+    (hFh : ∀ m, m < o.sig.ents.length → F h m = σr.st (o.sig.ents.getD m 0))
+    (hd1 : ∀ s ∈ Set.Icc 0 h, HasDerivWithinAt (fun s => ∑ m ∈ range o.sig.ents.length, F s m * r.w m) (φ' s)
+      (Set.Icc 0 h) s)
+    (hc : ContinuousOn φ' (Set.Icc 0 h))
+    (hd2 : ∀ s ∈ Set.Ioo 0 h, HasDerivAt φ' (φ'' s) s)
+    (hM : ∀ s ∈ Set.Ioo 0 h, |φ'' s| ≤ M)
+    (hright : an = φ' 0) :
+    |fdVal (realOps abs) false h o r σr - an| ≤ M * h / 2 := by
+  rw [hright]; exact fd_numerical_smooth abs o r σr h M hh F φ' φ'' hF0 hFh hd1 hc hd2 hM
+
+/-- **a wrong sensitivity is detected** (smooth module): if the analytical value is off by at least `δ` from the true
+    directional derivative, the reported pair differs by at least `δ − M·h/2`; in particular it does not match as soon
+    as the step satisfies `M·h/2 < δ`. -/
+theorem fd_detects_wrong_sensitivity_smooth (abs : ℝ → ℝ) (o : OutSig ℝ) (r : OutRec ℝ) (σr : Store ℝ) (h M : ℝ)
+    (hh : 0 < h) (F : ℝ → Nat → ℝ) (φ' φ'' : ℝ → ℝ) (an δ : ℝ)
+    (hF0 : ∀ m, m < o.sig.ents.length → F 0 m = r.f0 m)
+    (hFh : ∀ m, m < o.sig.ents.length → F h m = σr.st (o.sig.ents.getD m 0))
+    (hd1 : ∀ s ∈ Set.Icc 0 h, HasDerivWithinAt (fun s => ∑ m ∈ range o.sig.ents.length, F s m * r.w m) (φ' s)
+      (Set.Icc 0 h) s)
+    (hc : ContinuousOn φ' (Set.Icc 0 h))
+    (hd2 : ∀ s ∈ Set.Ioo 0 h, HasDerivAt φ' (φ'' s) s)
+    (hM : ∀ s ∈ Set.Ioo 0 h, |φ'' s| ≤ M)
+    (hwrong : δ ≤ |an - φ' 0|) :
+    δ - M * h / 2 ≤ |fdVal (realOps abs) false h o r σr - an| ∧
+      (M * h / 2 < δ → fdVal (realOps abs) false h o r σr ≠ an) := by
+  have hfd := fd_numerical_smooth abs o r σr h M hh F φ' φ'' hF0 hFh hd1 hc hd2 hM
+  have htri : |an - φ' 0| ≤ |fdVal (realOps abs) false h o r σr - an| + |fdVal (realOps abs) false h o r σr - φ' 0| := by
+    have e : an - φ' 0 = -(fdVal (realOps abs) false h o r σr - an) + (fdVal (realOps abs) false h o r σr - φ' 0) := by
+      ring
+    rw [e]
+    exact le_trans (abs_add_le _ _) (by rw [abs_neg])
+  have hlow : δ - M * h / 2 ≤ |fdVal (realOps abs) false h o r σr - an| := by linarith
+  refine ⟨hlow, fun hδ heq => ?_⟩
+  rw [heq, sub_self, abs_zero] at hlow
+  linarith
+
+end smooth
 
 /-! ## non-vacuity -/
 
@@ -307,5 +430,39 @@ example : (∀ i ∈ [(⟨x, false, false, [0], false⟩ : InSig)], i.sig.ents.N
 
 /-- the expansion hypothesis of the numerical theorems is satisfiable with `Q ≠ 0`: `(3 + h)² = 9 + h·6 + h²·1` -/
 example (h : ℚ) : (3 + h) * (3 + h) = 9 + h * 6 + h * h * 1 := by ring
+
+/-- the hypotheses of the Taylor bound behind `fd_numerical_smooth` are satisfiable by a non-polynomial function:
+    `φ = exp`, `M = exp h` gives `|(e^h − 1)/h − 1| ≤ e^h · h / 2` -/
+example (h : ℝ) (hh : 0 < h) : |(Real.exp h - Real.exp 0) / h - Real.exp 0| ≤ Real.exp h * h / 2 :=
+  fwd_diff_error (φ := Real.exp) (φ' := Real.exp) (φ'' := Real.exp) hh
+    (fun s _ => (Real.hasDerivAt_exp s).hasDerivWithinAt) Real.continuous_exp.continuousOn
+    (fun s _ => Real.hasDerivAt_exp s)
+    (fun s hs => by rw [abs_of_pos (Real.exp_pos s)]; exact Real.exp_le_exp.mpr hs.2.le)
+
+/-- `fd_numerical_smooth_entrywise` on the model, for a module that is NOT covered by `fd_numerical_quadratic`:
+    `y = x³` at `x = 3` (reference response `27`, perturbed response `(3 + h)³`, seed `1`); true derivative `27`,
+    `|∂²/∂s²| = 6(3 + s) ≤ 6(3 + h)`: the reported numerical value is within `6(3 + h)·h/2` of `27`. -/
+example (h : ℝ) (hh : 0 < h) :
+    |fdVal (realOps fun a : ℝ => |a|) false h ⟨Demo.y, false, .ones⟩ ⟨fun _ => 27, fun _ => 1, []⟩
+        ⟨fun _ => (3 + h) ^ 3, fun _ => 0, fun _ => true, fun _ => false⟩ - 27| ≤ 6 * (3 + h) * h / 2 := by
+  have key := fd_numerical_smooth_entrywise (fun a : ℝ => |a|) ⟨Demo.y, false, .ones⟩ ⟨fun _ => 27, fun _ => 1, []⟩
+    ⟨fun _ => (3 + h) ^ 3, fun _ => 0, fun _ => true, fun _ => false⟩ h hh
+    (fun s _ => (3 + s) ^ 3) (fun s _ => 3 * (3 + s) ^ 2) (fun s _ => 6 * (3 + s)) (fun _ => 6 * (3 + h))
+    (fun m _ => by norm_num) (fun m _ => rfl)
+    (fun m _ s _ => by
+      have := (((hasDerivAt_id s).const_add (3:ℝ)).pow 3).hasDerivWithinAt (s := Set.Icc 0 h)
+      refine this.congr_deriv ?_
+      simp)
+    (fun m _ => by fun_prop)
+    (fun m _ s _ => by
+      have := (((hasDerivAt_id s).const_add (3:ℝ)).pow 2).const_mul (3:ℝ)
+      refine this.congr_deriv ?_
+      simp; ring)
+    (fun m _ s hs => by
+      have h1 : 0 < 3 + s := by linarith [hs.1]
+      rw [abs_of_pos (by positivity)]
+      linarith [hs.2])
+  have e : (3:ℝ) * 3 ^ 2 = 27 := by norm_num
+  simpa [Demo.y, e] using key
 
 end PymotoVerif.C19
